@@ -1,7 +1,7 @@
 """R14 ZONE-PAIR, R15 LEX-NORM, R32 ORDER-AGREE (C02, C04, C06, C19, C20)."""
 import ast
 
-from ..model import AnalysisError, U, walk_no_nested, parent, ancestors
+from ..model import npos, AnalysisError, U, walk_no_nested, parent, ancestors
 
 KEY_GETTERS = ("get_calendar_date", "get_ordinal_date", "get_week_date",
                "get_second_of_day", "get_hour_minute_second")
@@ -28,7 +28,7 @@ def defs_before(f, name, node):
     for n in walk_no_nested(f.node):
         if isinstance(n, ast.Assign) and any(
                 isinstance(t, ast.Name) and t.id == name for t in n.targets):
-            if (n.lineno, n.col_offset) >= (node.lineno, node.col_offset):
+            if npos(n) >= npos(node):
                 continue
             if id(n) in anc:
                 continue      # the use is inside this very assignment
@@ -49,7 +49,7 @@ def defs_before(f, name, node):
     if not out:
         return []
     # the latest unconditional def kills earlier ones
-    out.sort(key=lambda n: (n.lineno, n.col_offset))
+    out.sort(key=npos)
     res = []
     for n in out[::-1]:
         res.append(n)
@@ -262,7 +262,7 @@ def r14_zone_pair(ctx):
                          U(t) == "%s._time_zone" % v.id for t in n.targets)]
         zok = len(zone_sets) >= 1 and all(U(n.value) in (
             dest, dest + "._copy()") for n in zone_sets) and all(
-                ds and ds[0].lineno < n.lineno < r.lineno for n in zone_sets)
+                ds and npos(ds[0]) < npos(n) < npos(r) for n in zone_sets)
         rep.check(zok, rule, key + ":zone-slot", f.loc(r),
                   "the result's zone slot is set to the requested zone",
                   "to_time_zone returns `%s` without storing the requested "
